@@ -60,7 +60,9 @@ def _self_fields_in(node):
 
 
 CODECS = ("quote", "quote_plus")
-TRANSPARENT = {"str"}  # builtins that return a str argument unchanged
+# callees that hand a str argument on unchanged / only collect or concatenate text (no encoding can hide in them)
+TRANSPARENT = {"str", "join", "append", "extend", "insert", "format", "list", "tuple", "sorted", "reversed", "to_list",
+               "cast", "items", "keys", "values", "get", "len", "isinstance"}
 MAX_HELPER_DEPTH = 3
 
 
@@ -202,12 +204,14 @@ def _writer_codecs(ctx, f):
             if via:
                 how = f" -> `{unparse(c)}` in {via[-1]}() with safe={safe!r}" + (f" ({origin})" if origin else "")
             fields = _fields_of(c.args[0], env)
-            for fld in (fields or {"query"}):  # no field: loop variables over self.query
+            ctx.require(fields, f"{fn.key}: cannot tell which URL component `{unparse(c)}` encodes")
+            for fld in fields:
                 out.setdefault(fld, []).append((codec, safe, top or c, how))
             return [c]
         target, bound_self = _resolve_helper(ctx, c, fn)
         if target is None or depth >= MAX_HELPER_DEPTH:
-            if (nm or "").rsplit(".", 1)[-1] not in TRANSPARENT:
+            last = c.func.attr if isinstance(c.func, ast.Attribute) else (nm or "").rsplit(".", 1)[-1]
+            if last not in TRANSPARENT:
                 for a in list(c.args) + [k.value for k in c.keywords]:
                     for fld in _fields_of(a, env):
                         out["?unfollowed"].setdefault(fld, []).append(unparse(top or c))
@@ -238,6 +242,16 @@ def _local_env(fn_node):
     env = {}
     for nm, val in local_defs(fn_node).items():
         env[nm] = _Closure(val, env, f"local `{nm}`")
+    # `user, pw = self.username, self.password`
+    counts = {}
+    for nm, _v, _st in name_stores(fn_node):
+        counts[nm] = counts.get(nm, 0) + 1
+    for n in walk_local(fn_node):
+        if isinstance(n, ast.Assign) and len(n.targets) == 1 and isinstance(n.targets[0], ast.Tuple) and isinstance(n.value, ast.Tuple) \
+                and len(n.targets[0].elts) == len(n.value.elts):
+            for t, v in zip(n.targets[0].elts, n.value.elts):
+                if isinstance(t, ast.Name) and counts.get(t.id) == 1 and t.id not in env:
+                    env[t.id] = _Closure(v, env, f"local `{t.id}`")
     for n in walk_local(fn_node, into_nested=True):
         if isinstance(n, (ast.comprehension, ast.For)):
             for t in _target_names(n.target):
@@ -442,6 +456,11 @@ def r1(ctx):
     ctx.check(final == set(cparams[1:]), f"{r.key}:groups->create",
               f"keys passed to URL.create(**components) are {sorted(final)}, create() takes {cparams[1:]}",
               f"{sorted(final)}", r.loc)
+
+
+def _expand_locals(fn_node, e):
+    from ._helpers_rob_g1 import expand_expr
+    return expand_expr(e, local_defs(fn_node))
 
 
 def _eq_facts(e, pol, other, defs, depth=0):
@@ -716,12 +735,18 @@ def r3(ctx):
     rets = returns_of(h.node)
     ok = False
     detail = ""
-    if len(rets) == 1 and isinstance(rets[0].value, ast.Call) and call_name(rets[0].value) == "hash" and rets[0].value.args:
-        a = rets[0].value.args[0]
+    hv = _expand_locals(h.node, rets[0].value) if len(rets) == 1 and rets[0].value is not None else None
+    if isinstance(hv, ast.Call) and call_name(hv) == "hash" and hv.args:
+        a = hv.args[0]
+        via = None
         if isinstance(a, ast.Call) and call_name(a) in ("str", "repr") and a.args and isinstance(a.args[0], ast.Name) \
                 and a.args[0].id == "self":
             # str(self) -> __str__/__repr__ -> render_as_string: reads only fields
-            w = ctx.func(f"{URLPY}::URL.render_as_string")
+            via = ctx.func(f"{URLPY}::URL.render_as_string")
+        elif isinstance(a, ast.Call) and self_attr(a.func) is not None and h.cls is not None:
+            via = ctx.index.resolve_method(h.cls, self_attr(a.func))   # hash(self.render_as_string())
+        if via is not None:
+            w = via
             reads = _transitive_self_reads(ctx, w)
             extra = reads - set(fields)
             ok = not extra
@@ -741,10 +766,10 @@ def r3(ctx):
     c = calls[0]
     passed = {}
     for p, a in zip(cparams, c.args):
-        passed[p] = self_attr(a)
+        passed[p] = self_attr(_expand_locals(cp.node, a))
     for k in c.keywords:
         if k.arg:
-            passed[k.arg] = self_attr(k.value)
+            passed[k.arg] = self_attr(_expand_locals(cp.node, k.value))
     wrong = [f"{p}<-{passed.get(p)}" for p in cparams if passed.get(p) != p]
     ctx.check(not wrong and set(cparams) == set(fields), cp.key,
               f"__copy__ passes the wrong attribute for create() parameter(s): {wrong}", "all seven fields in order", cp.loc)
@@ -1474,3 +1499,41 @@ R.mutant("r3-eq-guard-sequence-skips-password", URLPY,
                        '        same_login = self.username == other.username\n'
                        '        if not same_login:\n            return False\n'
                        '        return (self.host, self.database, self.query) == (other.host, other.database, other.query)\n'), "C20-R3")
+R.mutant("benign-host-rendering-in-method", URLPY,
+         chain(sub(_W_HOST, '        if self.host is not None:\n            s += self._render_host()\n'),
+               sub('    def __repr__(self) -> str:\n        return self.render_as_string()\n',
+                   '    def _render_host(self) -> str:\n        host = self.host\n        if ":" in host:\n            return "[" + host + "]"\n'
+                   '        return host\n\n    def __repr__(self) -> str:\n        return self.render_as_string()\n')), None)
+R.mutant("r4-host-rendering-method-brackets-always", URLPY,
+         chain(sub(_W_HOST, '        if self.host is not None:\n            s += self._render_host()\n'),
+               sub('    def __repr__(self) -> str:\n        return self.render_as_string()\n',
+                   '    def _render_host(self) -> str:\n        host = self.host\n        return "[" + host + "]"\n\n'
+                   '    def __repr__(self) -> str:\n        return self.render_as_string()\n')), "C20-R4")
+R.mutant("benign-hash-of-rendered-string-local", URLPY,
+         sub("        return hash(str(self))\n", "        rendered = self.render_as_string()\n        return hash(rendered)\n"), None)
+R.mutant("benign-copy-through-locals", URLPY,
+         sub("        return self.__class__.create(\n            self.drivername,\n            self.username,\n",
+             "        driver = self.drivername\n        return self.__class__.create(\n            driver,\n            self.username,\n"), None)
+_W_BODY = '        s = self.drivername + "://"\n        if self.username is not None:\n            s += quote(self.username, safe=" +")\n            if self.password is not None:\n                s += ":" + (\n                    "***"\n                    if hide_password\n                    else quote(str(self.password), safe=" +")\n                )\n            s += "@"\n        if self.host is not None:\n            if ":" in self.host:\n                s += f"[{self.host}]"\n            else:\n                s += self.host\n        if self.port is not None:\n            s += ":" + str(self.port)\n        if self.database is not None:\n            s += "/" + quote(self.database, safe=" +/")\n        if self.query:\n            keys = list(self.query)\n            keys.sort()\n            s += "?" + "&".join(\n                f"{quote_plus(k)}={quote_plus(element)}"\n                for k in keys\n                for element in util.to_list(self.query[k])\n            )\n        return s\n\n'
+_W_BODY_LIST = '        parts = [self.drivername, "://"]\n        user, pw = self.username, self.password\n        if user is not None:\n            parts.append(quote(user, safe=" +"))\n            if pw is not None:\n                parts.append(":")\n                parts.append("***" if hide_password else quote(str(pw), safe=" +"))\n            parts.append("@")\n        if self.host is not None:\n            parts.append("[%s]" % self.host if ":" in self.host else self.host)\n        if self.port is not None:\n            parts.append(":%s" % self.port)\n        if self.database is not None:\n            parts.extend(["/", quote(self.database, safe=" +/")])\n        if self.query:\n            pairs = []\n            for k in sorted(self.query):\n                for element in util.to_list(self.query[k]):\n                    pairs.append(quote_plus(k) + "=" + quote_plus(element))\n            parts.append("?" + "&".join(pairs))\n        return "".join(parts)\n\n'
+R.mutant("benign-writer-collects-parts-and-joins", URLPY, sub(_W_BODY, _W_BODY_LIST), None)
+R.mutant("r4-parts-writer-host-never-bracketed", URLPY,
+         sub(_W_BODY, _W_BODY_LIST.replace('parts.append("[%s]" % self.host if ":" in self.host else self.host)', 'parts.append(self.host)')), "C20-R4")
+R.mutant("r2-parts-writer-password-keeps-at-sign", URLPY,
+         sub(_W_BODY, _W_BODY_LIST.replace('quote(str(pw), safe=" +")', 'quote(str(pw), safe=" +@")')), "C20-R2")
+R.mutant("benign-reader-early-raise-and-value-local", URLPY,
+         chain(sub('    m = pattern.match(name)\n    if m is not None:\n        components = m.groupdict()\n',
+                   '    m = pattern.match(name)\n    if m is None:\n        raise exc.ArgumentError(\n'
+                   '            "Could not parse SQLAlchemy URL from given URL string"\n        )\n    if True:\n        components = m.groupdict()\n'),
+               sub('        for comp in "username", "password", "database":\n            if components[comp] is not None:\n'
+                   '                components[comp] = unquote(components[comp])\n',
+                   '        for comp in ("username", "password", "database"):\n            value = components[comp]\n'
+                   '            if value is not None:\n                components[comp] = unquote(value)\n'),
+               sub('        return URL.create(name, **components)  # type: ignore[arg-type]\n\n    else:\n        raise exc.ArgumentError(\n'
+                   '            "Could not parse SQLAlchemy URL from given URL string"\n        )\n',
+                   '        return URL.create(name, **components)  # type: ignore[arg-type]\n')), None)
+R.mutant("r5-value-local-stripped-after-decoding", URLPY,
+         sub('        for comp in "username", "password", "database":\n            if components[comp] is not None:\n'
+             '                components[comp] = unquote(components[comp])\n',
+             '        for comp in ("username", "password", "database"):\n            value = components[comp]\n'
+             '            if value is not None:\n                value = unquote(value)\n                components[comp] = value.strip()\n'), "C20-R5")
